@@ -53,7 +53,8 @@ static int g_unknown_req, g_provide_events, g_freed_req[MAXR + 1], g_bad_order;
 static int g_acc[2], g_inputs[2], g_inputs_unaccepted[2];        /* per output: accepted a definition; buffers received; buffers received before accepting */
 static struct upipe *g_pipe; static bool g_reenter; static int g_reentered;
 static bool g_rej[2];             /* the output refuses flow definitions */
-static int g_swap, g_need_output_events;       /* the probe answers need_output by connecting output B */
+static int g_swap, g_need_output_events;
+static int g_last_reg_ret;          /* what the output answered to the last REGISTER */       /* the probe answers need_output by connecting output B */
 static int stub_req_control(struct upipe *upipe, int command, va_list args)
 {
     int o = upipe == &g_outA ? 0 : 1;
@@ -78,7 +79,8 @@ static int stub_req_control(struct upipe *upipe, int command, va_list args)
                 upipe_idem_unregister_output_request(g_pipe, &g_r1);
                 upipe_idem_register_output_request(g_pipe, &g_r1);
             }
-            return VS_CHOICE(req_handled) & 1 ? UBASE_ERR_NONE : UBASE_ERR_UNHANDLED;
+            g_last_reg_ret = VS_CHOICE(req_handled) & 1 ? UBASE_ERR_NONE : UBASE_ERR_UNHANDLED;
+            return g_last_reg_ret;
         }
         if (g_last[o][k] != 1) g_bad_order++;                      /* unregistered something it does not hold */
         g_unreg[o][k]++; g_last[o][k] = 2;
@@ -154,6 +156,9 @@ void h_req_register(void)
     VPOST(spec_list_is(upipe, NREQ, true, -1));
     VPOST(WITH_A ? (g_reg[0][MAXR] == 1 && g_rnew.registered && g_bad_order == 0)
                  : (!g_rnew.registered && g_provide_events == 1 && g_reg[0][MAXR] == 0));
+    /* "forwarded down the chain until a pipe or a probe provides it": an output that does not handle the request leaves it
+     * to the pipe's probes (one provide_request event); one that handles it is the end of the road */
+    VPOST(!WITH_A || g_provide_events == (g_last_reg_ret == UBASE_ERR_UNHANDLED ? 1 : 0));
     VIN(uint8_t, gk); VASSUME(gk < NREQ || NREQ == 0);
     VPOST(NREQ == 0 || (g_reg[0][gk] == 0 && g_unreg[0][gk] == 0 && RQ(gk)->registered == (WITH_A != 0)));   /* the others untouched */
     VCANARY();
